@@ -53,10 +53,13 @@ def gen(ctx):
             yield dict(kind="ev2", hist=[[[(i * 3 + j * j) % 3 for j in range(C)] for i in range(R)]], dtype="int32",
                        scale=1, r=r, nb=nb, rule="probe:4:3:1:0", T=3, memo="False")
     for _ in range(ctx.n(400, 5000)):
-        yield rand_case(rng)
+        c = rand_case(rng)
+        if rng.random() < 0.25:
+            c["clobber"] = 1          # the rule overwrites the block it was handed (later cells must not see that)
+        yield c
     # large grids: R*C*(2r+1)^2 beyond 2^20 gathered elements, cell-dependent rule (oracle only: the list-based
     # Lean model is too slow at this size; the independent torus reference decides)
-    for (R, C, r, nb) in ([(350, 340, 1, "moore")] if ctx.tier == "quick" else [(350, 340, 1, "moore"), (300, 310, 1, "vn"), (120, 110, 4, "moore")]):
+    for (R, C, r, nb) in ([(215, 200, 2, "moore")] if ctx.tier == "quick" else [(350, 340, 1, "moore"), (215, 200, 2, "vn"), (120, 110, 4, "moore")]):
         yield dict(kind="ev2", big=1, hist=[[[(3 * i + 5 * j + (i * j) // 7) % 3 for j in range(C)] for i in range(R)]],
                    dtype="int32", scale=1, r=r, nb=nb, rule="probe:3:2:1:0", T=2, memo="False")
     for r in range(0, 9):
